@@ -290,6 +290,17 @@ def step (st : DState) (j : Json) : DState × Json :=
           if g.fileName == file then { g with state := state } else g })
       | x => x
     ({ st with tree := t }, Json.mkObj [("ok", true)])
+  | "orphan" =>
+    -- a manifest file in the ascmhl folder that the chain does not list (what an interrupted create leaves behind):
+    -- a copy of the stored manifest `file` under the name `as`
+    let hp := jpath j "hist"; let file := jstr j "file"; let nm2 := jstr j "as"
+    let t := updateAt st.tree hp fun d => match d with
+      | .dir nm cs (some s) =>
+        match s.gens.find? (fun g => g.fileName == file) with
+        | some g => .dir nm cs (some { s with gens := s.gens ++ [{ g with fileName := nm2 }] })
+        | none => .dir nm cs (some s)
+      | x => x
+    ({ st with tree := t }, Json.mkObj [("ok", true)])
   | "rmchain" =>
     let t := updateAt st.tree (jpath j "hist") fun d => match d with
       | .dir nm cs (some s) => .dir nm cs (some { s with chainPresent := jbool j "present" })
